@@ -517,7 +517,8 @@ def run_correspondence(rep: Report, drv, cases, impl, model_req, compare, oracle
 
     t_stage = time.time()
     for c in cases:
-        if getattr(rep, "stage_deadline", None) and time.time() - t_stage > rep.stage_deadline:
+        if (getattr(rep, "stage_deadline", None) and time.time() - t_stage > rep.stage_deadline) or \
+                (getattr(rep, "global_deadline", None) and time.time() > rep.global_deadline):
             rep.count("deepening:stage-time-box-reached:" + opname)      # time-boxed pass of the deepened search (check.py)
             break
         # snapshot: generators may reuse and later mutate the objects they yield, and the oracle / replay of a batch runs after
